@@ -396,6 +396,63 @@ fn main() {
         ord_forms.push(("2-then-1".into(), vec![seg(Resp::Ret(500), Quant::N(2)), seg(Resp::Ret(501), Quant::N(1))]));
         ord_forms.push(("0-then-open".into(), vec![seg(Resp::Ret(500), Quant::N(0)), seg(Resp::Ret(501), Quant::Open)]));
     }
+    // two and three ordered patterns of *one* method (with an ordered pattern of another method in
+    // between): a history that stops early leaves several of them unmet, each gets its line
+    for counts in [[1usize, 1, 1], [0, 1, 1], [1, 0, 2], [2, 1, 0]] {
+        for with_e in [false, true] {
+            let mut clauses = vec![];
+            for (k, n) in counts.iter().enumerate() {
+                clauses.push(ClauseSpec::Single {
+                    m: M::C,
+                    entry: Entry::NextCall,
+                    pat: PatSpec {
+                        mask: 7,
+                        segs: vec![seg(Resp::Ret(510 + k as u32), Quant::N(*n))],
+                    },
+                });
+                if with_e && k == 0 {
+                    clauses.push(ClauseSpec::Single {
+                        m: M::E,
+                        entry: Entry::NextCall,
+                        pat: PatSpec {
+                            mask: 7,
+                            segs: vec![seg(Resp::Ret(520), Quant::N(1))],
+                        },
+                    });
+                }
+            }
+            cases.push(Case {
+                label: format!("c*{counts:?}{}", if with_e { "+e" } else { "" }),
+                config: Config { partial: false, clauses },
+                histories: HistGen::All {
+                    alphabet: vec![Call::new(M::C, 0), Call::new(M::E, 0)],
+                    depth: if quick { 4 } else { 5 },
+                },
+            });
+        }
+    }
+    // many expectations violated at once: 12 exactly quantified patterns on two methods and no call
+    // at all (12 count lines and 2 never-called lines), or one call
+    {
+        let clauses: Vec<ClauseSpec> = (0..12usize)
+            .map(|k| ClauseSpec::Single {
+                m: if k % 2 == 0 { M::A } else { M::B },
+                entry: Entry::EachCall,
+                pat: PatSpec {
+                    mask: 1 + (k as u8 % 7),
+                    segs: vec![seg(Resp::Ret(700 + k as u32), Quant::N(1 + k % 3))],
+                },
+            })
+            .collect();
+        cases.push(Case {
+            label: "twelve-exact-patterns".into(),
+            config: Config { partial: false, clauses },
+            histories: HistGen::All {
+                alphabet: vec![Call::new(M::A, 0), Call::new(M::B, 1)],
+                depth: 2,
+            },
+        });
+    }
     for (n1, segs1) in ord_forms {
         for n2 in [None, Some(0usize), Some(1), Some(2)] {
             for (l, c) in pattern_specs(false, 0).into_iter().filter(|(_, c)| c.method() == M::A) {
